@@ -13,7 +13,7 @@ import kblocks  # noqa: E402
 
 VERIF = os.path.dirname(os.path.dirname(os.path.abspath(__file__)))
 WORK = os.environ.get('VERIF_WORK', '/var/tmp/wrv')
-MEM_KB = int(os.environ.get('VERIF_KANI_MEM_KB', str(14 * 1024 * 1024)))
+MEM_KB = int(os.environ.get('VERIF_KANI_MEM_KB', str(30 * 1024 * 1024)))
 
 ENV = dict(os.environ)
 ENV['CARGO_NET_OFFLINE'] = 'true'
@@ -111,6 +111,7 @@ def run_kani(base, dst, crate, harnesses, jobs=8, extra_flags=()):
     cmd = ['cargo', 'kani', '-p', crate, '-j', str(jobs), '--output-format=terse', '-Z', 'unstable-options',
            '--harness-timeout', '%ds' % tmax, '--target-dir', os.path.join(base, 'target-' + crate),
            '-Z', 'function-contracts', '-Z', 'stubbing', '--exact']
+    cmd.append('--lib')
     for h in harnesses:
         cmd += ['--harness', h.get('path', 'verif_kani::' + h['name'])]
     cmd += list(extra_flags)
@@ -120,11 +121,10 @@ def run_kani(base, dst, crate, harnesses, jobs=8, extra_flags=()):
     res = parse_kani_output(out, harnesses)
     for r in res.values():
         r['log'] = log
-    if 'error: could not compile' in out or 'error[E' in out or 'error: failed to' in out:
+    if 'error: could not compile' in out or 'error[E' in out or 'error: failed to' in out or 'Failed to execute cargo' in out:
         errs = [ln for ln in out.split('\n') if ln.startswith('error')][:5]
         for r in res.values():
-            if r['status'] == 'noresult':
-                r['status'] = 'undecided'
+            if r['status'] == 'undecided' and (r['reason'] or '').startswith('no result block'):
                 r['reason'] = 'build failed: ' + ' | '.join(errs)
     return res
 
@@ -175,7 +175,7 @@ def parse_kani_output(out, harnesses):
                 r['reason'] = 'only unwinding/unsupported checks failed: ' + descs[:200]
             elif not r['failed_checks']:
                 r['status'] = 'undecided'
-                r['reason'] = 'FAILED without a failed check (tool limit / timeout / memory): ' + text.strip()[-300:]
+                r['reason'] = 'FAILED without a failed check (CBMC aborted: memory limit, timeout or crash)'
             else:
                 r['status'] = 'fail'
         if 'timed out' in text.lower() or 'CBMC timed out' in text:
@@ -194,7 +194,7 @@ def playback(base, dst, crate, crate_dir, harness_meta):
     name = harness_meta['name']
     hp = harness_meta.get('path', 'verif_kani::' + name)
     tdir = os.path.join(base, 'target-' + crate)
-    cmd = ['cargo', 'kani', '-p', crate, '--exact', '--harness', hp, '-Z', 'concrete-playback', '--concrete-playback=inplace',
+    cmd = ['cargo', 'kani', '-p', crate, '--lib', '--exact', '--harness', hp, '-Z', 'concrete-playback', '--concrete-playback=inplace',
            '-Z', 'function-contracts', '-Z', 'stubbing', '--target-dir', tdir, '--output-format=terse']
     rc, out, _ = _run(cmd, dst, int(harness_meta['timeout']) + 600)
     rep = {'harness': name, 'concrete_values': [], 'native_playback': None}
